@@ -304,7 +304,7 @@ func ConfusableRunes(chars string) []rune {
 		for f := unicode.SimpleFold(rune(c)); f != rune(c); f = unicode.SimpleFold(f) {
 			add(f)
 		}
-		add(rune(c) + 0xFEE0) // full-width form
+		add(rune(c) + 0xFEE0)  // full-width form
 		add(0x10000 | rune(c)) // beyond the basic plane, low byte and low 16 bits equal to the character
 		add(0x1F600 | rune(c))
 		add(0x10FF00 | rune(c))
